@@ -128,7 +128,7 @@ def run(ctx):
     ctx.assume('pure-Python result decoder (the Cython obj_parser path belongs to C07)',
                'policy IV has 16 bytes (checked by the policy constructor)')
     rng = ctx.rng
-    ncases = 700 if ctx.tier == 'quick' else 5000
+    ncases = 500 if ctx.tier == 'quick' else 5000
     cases = []
     corpus = os.path.join(core.VERIF, 'corpus', 'C39')
     if os.path.isdir(corpus):
